@@ -21,6 +21,14 @@ class Panic(Exception):
     pass
 
 
+class Break(Exception):
+    pass
+
+
+class Continue(Exception):
+    pass
+
+
 class SymEval:
     def __init__(self, hooks, what="function"):
         self.h = hooks
@@ -100,7 +108,9 @@ class SymEval:
                 return not v
             self.fail("unary", e)
         if k == "cast":
-            return self.ev(e[1], env)
+            v = self.ev(e[1], env)
+            r = self.h.cast(v, e[2], e)
+            return v if r is NotImplemented else r
         if k == "tuple":
             return ("tuple", [self.ev(x, env) for x in e[1]]) if e[1] else UNIT
         if k == "return":
@@ -174,12 +184,44 @@ class SymEval:
                 if p is not None and p in env:
                     env[p] = v
                     return UNIT
+                if e[1][0] == "index" and path_of(e[1][1]) in env and isinstance(env[path_of(e[1][1])], tuple) and env[path_of(e[1][1])][0] == "list":
+                    i = self.ev(e[1][2], env)
+                    items = list(env[path_of(e[1][1])][1])
+                    if not isinstance(i, int):
+                        self.fail("symbolic index in assignment", e)
+                    if i >= len(items):
+                        raise Panic("index %d out of range in assignment" % i)
+                    items[i] = v
+                    env[path_of(e[1][1])] = ("list", items)
+                    return UNIT
                 self.fail("assignment", e)
             return UNIT
         if k == "assignop":
             v = self.ev(e[3], env)
             r = self.h.assignop(e[2], e[1], v, env, self)
             if r is NotImplemented:
+                p = path_of(e[2])
+                if p is not None and p in env:
+                    old = env[p]
+                    if isinstance(old, int) and isinstance(v, int) and not isinstance(old, bool):
+                        env[p] = {"+": old + v, "-": old - v, "*": old * v}.get(e[1])
+                        if env[p] is None:
+                            self.fail("compound operator", e)
+                        if env[p] < 0:
+                            raise Panic("arithmetic underflow")
+                        return UNIT
+                    env[p] = ("opassign", e[1], old, v)
+                    return UNIT
+                if e[2][0] == "index" and path_of(e[2][1]) in env and isinstance(env[path_of(e[2][1])], tuple) and env[path_of(e[2][1])][0] == "list":
+                    i = self.ev(e[2][2], env)
+                    items = list(env[path_of(e[2][1])][1])
+                    if not isinstance(i, int):
+                        self.fail("symbolic index in compound assignment", e)
+                    if i >= len(items):
+                        raise Panic("index %d out of range" % i)
+                    items[i] = ("opassign", e[1], items[i], v)
+                    env[path_of(e[2][1])] = ("list", items)
+                    return UNIT
                 self.fail("compound assignment", e)
             return UNIT
         if k == "call":
@@ -251,6 +293,44 @@ class SymEval:
                 self.fail("format_args without a literal format string", e)
             vals = [self.ev(x, env) for x in a[1:]]
             return fmtseq(a[0][2], vals)
+        if k in ("while", "loop"):
+            n = 0
+            while True:
+                n += 1
+                if n > 10000:
+                    self.fail("loop does not terminate on the abstract input", e)
+                if k == "while":
+                    c = e[1]
+                    if c[0] == "let":
+                        v = self.ev(c[2], env)
+                        m = self.match_pat(c[1], v, env)
+                        if m is None:
+                            self.fail("undecided while-let", c)
+                        if not m:
+                            break
+                    else:
+                        cv = self.ev(c, env)
+                        if not isinstance(cv, bool):
+                            self.fail("undecided loop condition", c)
+                        if not cv:
+                            break
+                try:
+                    self.block(e[2] if k == "while" else e[1], env)
+                except Break:
+                    break
+                except Continue:
+                    continue
+            return UNIT
+        if k == "break":
+            raise Break()
+        if k == "continue":
+            raise Continue()
+        if k == "repeat":
+            v = self.ev(e[1], env)
+            n_ = self.ev(e[2], env)
+            if isinstance(n_, int):
+                return ("list", [v] * n_)
+            self.fail("array repeat with symbolic length", e)
         if k == "for":
             it = self.ev(e[2], env)
             if not (isinstance(it, tuple) and it[0] == "list"):
@@ -258,7 +338,12 @@ class SymEval:
             for item in it[1]:
                 if self.match_pat(e[1], item, env) is not True:
                     self.fail("for pattern", e[1])
-                self.block(e[3], env)
+                try:
+                    self.block(e[3], env)
+                except Break:
+                    break
+                except Continue:
+                    continue
             return UNIT
         if k in ("vec", "array"):
             return ("list", [self.ev(x, env) for x in e[1]])
@@ -309,6 +394,39 @@ class SymEval:
                 return recv
             if m == "map" and len(args) == 1:
                 return ("list", [self.apply(args[0], [x]) for x in items])
+            if m == "enumerate":
+                return ("list", [("tuple", [i, x]) for i, x in enumerate(items)])
+            if m in ("find", "position", "any", "all", "find_map", "filter") and len(args) == 1:
+                res = []
+                for i, x in enumerate(items):
+                    t = self.apply(args[0], [x])
+                    if m == "find_map":
+                        if t != NONE:
+                            return t
+                        continue
+                    if not isinstance(t, bool):
+                        self.fail("undecided predicate in %s: %r" % (m, t), e)
+                    if m == "find" and t:
+                        return ("some", x)
+                    if m == "position" and t:
+                        return ("some", i)
+                    if m == "any" and t:
+                        return True
+                    if m == "all" and not t:
+                        return False
+                    if m == "filter" and t:
+                        res.append(x)
+                if m == "filter":
+                    return ("list", res)
+                return NONE if m in ("find", "position", "find_map") else (m == "all")
+            if m == "chunks_exact" and len(args) == 1 and isinstance(args[0], int) and args[0] > 0:
+                n_ = args[0]
+                full = len(items) // n_
+                return ("chunks", [("list", items[i * n_:(i + 1) * n_]) for i in range(full)], ("list", items[full * n_:]))
+            if m == "try_into":
+                return ("ok", recv)
+            if m == "next":
+                self.fail("stateful iterator", e)
             if m == "join" and len(args) == 1:
                 return ("join", items, args[0])
             if m == "len":
@@ -371,6 +489,31 @@ class SymEval:
                 return recv if ok else ("err", self.apply(args[0], [recv[1]]))
             if m == "map":
                 return ("ok", self.apply(args[0], [recv[1]])) if ok else recv
+        if isinstance(recv, tuple) and recv[0] == "chunks":
+            if m == "remainder":
+                return recv[2]
+            if m == "map" and len(args) == 1:
+                return ("list", [self.apply(args[0], [x]) for x in recv[1]])
+            if m in ("iter", "into_iter"):
+                return ("list", recv[1])
+        if m == "copy_from_slice" and len(args) == 1 and e[1][0] == "index" and path_of(e[1][1]) in env:
+            name = path_of(e[1][1])
+            base = env[name]
+            src = args[0]
+            rg = e[1][2]
+            if isinstance(base, tuple) and base[0] == "list" and isinstance(src, tuple) and src[0] == "list" and rg[0] == "range":
+                lo = self.ev(rg[1], env) if rg[1] is not None else 0
+                hi = self.ev(rg[2], env) if rg[2] is not None else len(base[1])
+                if rg[3]:
+                    hi += 1
+                if not (isinstance(lo, int) and isinstance(hi, int)) or hi > len(base[1]) or lo > hi:
+                    raise Panic("slice range out of bounds in copy_from_slice")
+                if hi - lo != len(src[1]):
+                    raise Panic("copy_from_slice length mismatch")
+                items = list(base[1])
+                items[lo:hi] = src[1]
+                env[name] = ("list", items)
+                return UNIT
         if m in ("clone", "to_owned", "into", "as_str", "as_ref", "borrow", "to_string") and not args:
             return recv
         self.fail("method call", e)
@@ -573,6 +716,9 @@ class Hooks:
         return NotImplemented
 
     def assignop(self, lhs, op, v, env, ev):
+        return NotImplemented
+
+    def cast(self, v, ty, e):
         return NotImplemented
 
     def match_lit(self, v, lit):
